@@ -53,6 +53,8 @@ pub struct NamespaceStates(BTreeMap<NamespaceId, NamespaceState>);
 struct NamespaceState {
     nodes: BTreeMap<EndpointId, PeerState>,
     may_emit_ready: bool,
+    #[cfg(feature = "verif")]
+    verif_id: crate::verif::InstanceId,
 }
 
 impl NamespaceStates {
@@ -63,7 +65,11 @@ impl NamespaceStates {
 
     /// Insert a namespace into the set of syncing namespaces.
     pub fn insert(&mut self, namespace: NamespaceId) {
+        #[cfg(feature = "verif")]
+        let verif_fresh = !self.0.contains_key(&namespace);
         self.0.entry(namespace).or_default();
+        #[cfg(feature = "verif")]
+        self.verif_enter("insert", &namespace, None, format!("\"fresh\":{verif_fresh}"));
     }
 
     /// Start a sync request.
@@ -75,9 +81,13 @@ impl NamespaceStates {
         node: EndpointId,
         reason: SyncReason,
     ) -> bool {
+        #[cfg(feature = "verif")]
+        self.verif_enter("start_connect", namespace, Some(&node), format!("\"reason\":\"{reason:?}\""));
         match self.entry(namespace, node) {
             None => {
                 debug!("abort connect: namespace is not in sync set");
+                #[cfg(feature = "verif")]
+                crate::verif::live_exit("\"ret\":false,\"post\":null".to_string());
                 false
             }
             Some(state) => state.start_connect(reason),
@@ -93,7 +103,11 @@ impl NamespaceStates {
         namespace: &NamespaceId,
         node: EndpointId,
     ) -> AcceptOutcome {
+        #[cfg(feature = "verif")]
+        self.verif_enter("accept_request", namespace, Some(&node), format!("\"yield\":{}", me.as_bytes() > node.as_bytes()));
         let Some(state) = self.entry(namespace, node) else {
+            #[cfg(feature = "verif")]
+            crate::verif::live_exit("\"ret\":\"NotFound\",\"post\":null".to_string());
             return AcceptOutcome::Reject(AbortReason::NotFound);
         };
         state.accept_request(me, &node)
@@ -113,6 +127,8 @@ impl NamespaceStates {
         origin: &Origin,
         result: Result<SyncFinished>,
     ) -> Option<(SystemTime, bool)> {
+        #[cfg(feature = "verif")]
+        self.verif_enter("finish", namespace, Some(&node), format!("\"origin\":\"{}\",\"ok\":{}", match origin { Origin::Accept => "Accept", Origin::Connect(_) => "Connect" }, result.is_ok()));
         let state = self.entry(namespace, node)?;
         state.finish(origin, result)
     }
@@ -126,6 +142,8 @@ impl NamespaceStates {
     /// Returns `Some(resync)` if the slot was released, where `resync` is true if another sync
     /// request should be triggered right afterwards.
     pub fn connect_declined(&mut self, namespace: &NamespaceId, node: EndpointId) -> Option<bool> {
+        #[cfg(feature = "verif")]
+        self.verif_enter("connect_declined", namespace, Some(&node), String::new());
         let state = self.entry(namespace, node)?;
         match state.state {
             SyncState::Running {
@@ -167,6 +185,8 @@ impl NamespaceStates {
 
     /// Remove a namespace from the set of syncing namespaces.
     pub fn remove(&mut self, namespace: &NamespaceId) -> bool {
+        #[cfg(feature = "verif")]
+        self.verif_enter("remove", namespace, None, String::new());
         self.0.remove(namespace).is_some()
     }
 
@@ -197,6 +217,42 @@ impl NamespaceStates {
             } => 2,
         };
         Some((slot, peer.resync_requested))
+    }
+
+    /// Verification hook H10: one line per call of a transition function, written on entry (so before any
+    /// change) with the instance id of the document's state, the peer, the arguments and the slot as it is.
+    fn verif_enter(&self, func: &str, namespace: &NamespaceId, node: Option<&EndpointId>, args: String) {
+        if !crate::verif::live_enabled() {
+            return;
+        }
+        let inst = self.0.get(namespace).map(|s| s.verif_id.0).unwrap_or(0);
+        let pre = match node.and_then(|n| self.verif_slot(namespace, n)) {
+            Some((slot, resync)) => format!("[{slot},{resync}]"),
+            None => "null".to_string(),
+        };
+        let peer = node.map(|n| n.to_string()).unwrap_or_default();
+        let sep = if args.is_empty() { "" } else { "," };
+        crate::verif::live_enter(format!(
+            "\"fn\":\"{func}\",\"inst\":{inst},\"ns\":\"{namespace}\",\"peer\":\"{peer}\",\"pre\":{pre}{sep}{args}"
+        ));
+    }
+}
+
+#[cfg(feature = "verif")]
+impl PeerState {
+    fn verif_view(&self) -> String {
+        let slot = match &self.state {
+            SyncState::Idle => 0,
+            SyncState::Running {
+                origin: Origin::Connect(_),
+                ..
+            } => 1,
+            SyncState::Running {
+                origin: Origin::Accept,
+                ..
+            } => 2,
+        };
+        format!("[{slot},{}]", self.resync_requested)
     }
 }
 
@@ -245,10 +301,14 @@ impl PeerState {
                     debug!("resync queued");
                     self.resync_requested = true;
                 }
+                #[cfg(feature = "verif")]
+                crate::verif::live_exit(format!("\"ret\":false,\"post\":{}", self.verif_view()));
                 false
             }
             SyncState::Idle => {
                 self.set_sync_running(Origin::Connect(reason));
+                #[cfg(feature = "verif")]
+                crate::verif::live_exit(format!("\"ret\":true,\"post\":{}", self.verif_view()));
                 true
             }
         }
@@ -282,6 +342,8 @@ impl PeerState {
             self.set_sync_running(Origin::Accept);
             self.resync_requested = keep_resync;
         }
+        #[cfg(feature = "verif")]
+        crate::verif::live_exit(format!("\"ret\":\"{}\",\"post\":{}", match &outcome { AcceptOutcome::Allow => "Allow", AcceptOutcome::Reject(AbortReason::AlreadySyncing) => "AlreadySyncing", AcceptOutcome::Reject(_) => "Reject" }, self.verif_view()));
         outcome
     }
 
